@@ -15,4 +15,21 @@ def Obj.atomic (o : Obj) : Bool := o.external.isEmpty && o.methods.all o.covered
 def Obj.unguarded (o : Obj) : List String :=
   ((o.methods.filter (fun m => !o.covered m)).flatMap (·.fields)).eraseDups
 
+/-- methods no other method of the type calls: where control enters the object -/
+def Obj.roots (o : Obj) : List Method := o.methods.filter fun m => (o.callers m.name).isEmpty
+
+/-- methods reachable from `ms` through calls without passing through a method that takes the lock (fuel = number of methods) -/
+def Obj.reachUnlocked (o : Obj) : Nat → List Method → List Method
+  | 0, ms => ms
+  | fuel + 1, ms =>
+    let next := ms.flatMap fun m => if m.locked then [] else o.methods.filter fun c => m.calls.contains c.name
+    let all := (ms ++ next).eraseDups
+    if all.length = ms.length then ms else o.reachUnlocked fuel all
+
+/-- fields some method touches while no lock of the object is held on the path from an entry point other than the
+constructors `init` (which run before any other goroutine can reach the object) -/
+def Obj.exposed (o : Obj) (init : List String) : List String :=
+  let entry := o.roots.filter fun m => !init.contains m.name
+  (((o.reachUnlocked o.methods.length entry).filter (!·.locked)).flatMap (·.fields)).eraseDups
+
 end Gen.Locks
